@@ -597,6 +597,9 @@ public:
     }
     c.sched = Sched::draw(r, 4000000ull);
     c.sched.total_cap = thorough ? 200000000ull : 60000000ull;
+    // (drawn last so that the other fields of existing seeds do not change)
+    if ((prop == "C01" || prop == "C12") && !c.task_plot && c.threads > 1)
+      c.tight_pools = r.chance(0.35);
     return c.to_json();
   }
 
@@ -796,11 +799,52 @@ public:
     if (prop == "C13" || (prop == "C12" && mode == "perturb"))
       return execute_twice(c);
     const std::string dir = scratch_dir();
+    bool tight = false;
+    if (c.tight_pools && c.nbuffers == 0 && c.ntasks == 0) {
+      // measuring run: same case, same schedule, capacities that cannot be
+      // exhausted; its verdict is not used (the run below decides)
+      remove_snapshots(dir);
+      const std::string pf0 = c.write_files(dir);
+      scrub_memory(0xA5);
+      Ledger M;
+      M.lay.init(c);
+      M.check_handover = true;
+      run_begin(c.sched, &M);
+      const bool fin0 = guarded([&]() {
+        TaskBasedIonizationSimulation sim(c.threads, pf0, c.task_plot,
+                                          c.initial_snapshot, nullptr);
+        sim.initialize();
+        sim.run();
+      });
+      run_end();
+      if (getenv("EION_DEBUG_POOLS"))
+        fprintf(stderr, "measuring run: finished %d failed %d (%s) max buffers %ld tasks %ld total %ld\n",
+                (int)fin0, (int)M.failed, M.violation.message.c_str(), M.max_buffers_in_use, M.max_tasks_in_use, M.total_buffers_taken);
+      if (fin0 && !M.failed && M.max_buffers_in_use > 0) {
+        long nb, nt, nq;
+        c.capacities(nb, nt, nq);
+        c.nbuffers = std::min(nb, 2 * M.max_buffers_in_use + 32);
+        c.ntasks = std::min(nt, 2 * M.max_tasks_in_use + 64);
+        c.queue = c.ntasks;
+        tight = true;
+      } else if (!fin0) {
+        // the case does not even finish with ample pools: let the normal
+        // run below report it
+        out.restart_worker = true;
+      }
+    }
     remove_snapshots(dir);
     const std::string pf = c.write_files(dir);
     scrub_memory(0xA5);
     Ledger L;
     L.lay.init(c);
+    {
+      long nb, nt, nq;
+      c.capacities(nb, nt, nq);
+      L.cap_buffers = nb;
+    }
+    if (tight)
+      L.pool_margin = c.threads + 2;
     L.record_segments = (prop == "C03");
     L.check_handover = true;
     if (prop == "C03")
@@ -831,6 +875,11 @@ public:
       out.notes.push_back("run abandoned as inconclusive: still progressing "
                           "after the total point cap (a packet travelling "
                           "almost parallel to periodic walls)");
+    } else if (!finished && tight && (L.pool_exhausted || L.pools_full())) {
+      // the premise of the property (capacities are not exhausted) does not
+      // hold for this schedule with the reduced pools
+      out.notes.push_back("run with reduced pools ran out of buffer or task "
+                          "slots under this schedule: inconclusive");
     } else if (!finished) {
       vclass = "nontermination";
       message = sfmt("iteration %d did not end within the step budget (fair "
@@ -884,6 +933,11 @@ public:
     st["fair_phase_runs"] = rs.fair_phase ? 1 : 0;
     st["max_points_per_run"] = (long long)rs.points;
     st["packets_terminated"] = (long long)L.done_total;
+    if (tight) {
+      st["runs_with_reduced_pools"] = 1;
+      if (L.total_buffers_taken > L.cap_buffers)
+        st["runs_in_which_the_buffer_pool_wrapped"] = 1;
+    }
     for (auto &kv : L.stats)
       st[kv.first] = kv.second;
     for (int d = 0; d < TRAVELDIRECTION_NUMBER; ++d)
